@@ -4,6 +4,7 @@
 set -e
 cd "$(dirname "$0")/.."
 python3 tools/translate/run_all.py
+python3 tools/gen_driver.py
 cd lean
 lake build 2>&1 | grep -v '^✔\|^⚠' | tail -40
 test -x .lake/build/bin/driver
